@@ -20,11 +20,15 @@ class SpectraVoice(BaseSpectraVoice, Module):
         for i, (freq, volume, width, type) in enumerate(harmonics):
             h = self.harmonics[i]
             h.freq_hz, h.volume, h.width, h.type = freq, volume, width, type
+        # The h_* controllers mirror the selected harmonic, unless given explicitly.
         h = self.harmonics[self.harmonic]
         self.h_freq_hz = h.freq_hz
-        self.h_volume = h.volume
-        self.h_width = h.width
-        self.h_type = h.type
+        if "h_volume" not in kwargs:
+            self.h_volume = h.volume
+        if "h_width" not in kwargs:
+            self.h_width = h.width
+        if "h_type" not in kwargs:
+            self.h_type = h.type
 
     def specialized_iff_chunks(self):
         yield from self.harmonic_freqs.chunks()
@@ -56,10 +60,12 @@ class Harmonic:
     def __init__(self, module, index):
         self.module = module
         self.index = index
-        self._freq_hz = 0
-        self._volume = 0
-        self._width = 0
-        self._type = SpectraVoice.HarmonicType.hsin
+        # Start from the module's harmonic tables (whose defaults come from the spec),
+        # so that a fresh module's h_* controllers report the specified defaults.
+        self._freq_hz = module.harmonic_freqs.values[index]
+        self._volume = module.harmonic_volumes.values[index]
+        self._width = module.harmonic_widths.values[index]
+        self._type = module.harmonic_types.values[index]
 
     @property
     def freq_hz(self):
